@@ -347,13 +347,15 @@ func c19Names(h []c19Letter) []string {
 
 func init() {
 	explore.Register(&explore.Check{
-		ID:        "C19",
-		Level:     "model_checking",
-		Technique: "exhaustive enumeration of (middleware count, failing position, auth, terminate hook) configurations x command histories x delivery mode on a real server, judged by a lifecycle reference machine with context probes inside every callback",
-		Rule:      "m in 0..3 middlewares, failing position none|1..m, auth none|cleartext, terminate hook absent|ok|error (60 configurations) x all histories of length <= d over {Query ok, Query err, Parse+Bind+Execute+Sync, a failing Bind without Sync, Terminate, EOF} x {message by message, one segment}",
+		ID:          "C19",
+		Level:       "model_checking",
+		Technique:   "exhaustive enumeration of (middleware count, failing position, auth, terminate hook) configurations x command histories x delivery mode on a real server, judged by a lifecycle reference machine with context probes inside every callback",
+		Rule:        "m in 0..3 middlewares, failing position none|1..m, auth none|cleartext, terminate hook absent|ok|error (60 configurations) x all histories of length <= d over {Query ok, Query err, Parse+Bind+Execute+Sync, a failing Bind without Sync, Terminate, EOF} x {message by message, one segment}",
 		Assumptions: []string{"context cancellation is observed at the next quiescence on the retained context"},
 		Enumerate:   c19Enumerate,
-		Bounds:      func(tier string) map[string]any { return map[string]any{"history_depth": c19Depth(tier), "configurations": 60} },
+		Bounds: func(tier string) map[string]any {
+			return map[string]any{"history_depth": c19Depth(tier), "configurations": 60}
+		},
 		RequiredOutcomes: []string{"served", "terminated", "middleware-failed", "several-connections"},
 	})
 }
